@@ -361,3 +361,148 @@ def section_retry(ctx, tier, r):
             ctx.witness(("genuine Retry rejected" if genuine else "altered Retry accepted") + f": {o}",
                         {"op": l.split(" | ")[0], "impl_output": o}, {"oracle": "retry-tag", "genuine": genuine})
     ctx.sample({"retry": lines[0][:160]})
+
+
+# ------------------------------------- 5. sequences on ONE live object per key
+def _flip(b, i, m=0x5A):
+    b = bytearray(b)
+    b[i] ^= m
+    return bytes(b)
+
+
+def _hp_lines(rfc, kind, suite, key, items):
+    """items: (hdr, payload) for apply, (packet, off) for remove -> op lines with the independent mask"""
+    if kind == "apply":
+        qs = [f"prot.q.sample {hx(h)} {hx(p)}" for h, p in items]
+    else:
+        qs = [f"prot.q.rsample {hx(p)} {o}" for p, o in items]
+    samples = [unhx(okval(o)) for o in lean.run_driver(qs)]
+    name = rfc.t.suites[suite][0]
+    out = []
+    for (a, b), s in zip(items, samples):
+        m = rfc.mask(suite, key, s)
+        out.append(f"prot.{kind} {name} {hx(key)} {hx(a)} {b if kind == 'remove' else hx(b)} | {hx(s)} {hx(m)}")
+    return out
+
+
+def section_live_sequences(ctx, tier, r):
+    """State carried inside a HeaderProtection / CryptoContext object between calls
+    must not matter: consecutive calls on ONE object whose 16-byte samples are
+    equal, differ in one byte (each of the 16 positions), in bytes 0..3 only, in
+    bytes 4..15 only, are each compared with the independent implementation, and
+    a genuine packet must be recovered right after an altered copy of it."""
+    rfc, impl = env()
+    thorough = tier == "thorough"
+    for suite in SUITES:
+        key = hp_key(r, suite, rfc)
+        pn_len = 2
+        hdr = gen_header(r, pn_len, False, 11)
+        off = len(hdr) - pn_len
+        base = bytes(r.randrange(256) for _ in range(40))
+        s0 = 4 - pn_len                                   # sample = payload[s0 : s0 + 16]
+        variants = [base] + [_flip(base, s0 + j) for j in range(16)]
+        variants.append(bytes(b ^ (0xFF if s0 <= i < s0 + 4 else 0) for i, b in enumerate(base)))     # bytes 0..3 only
+        variants.append(bytes(b ^ (0xFF if s0 + 4 <= i < s0 + 16 else 0) for i, b in enumerate(base)))  # bytes 4..15 only
+        seq = []
+        for v in variants[1:]:
+            seq += [base, v, base, v, v]
+        for _ in range(100 if not thorough else 3000):
+            seq.append(r.choice(variants))
+        lines = _hp_lines(rfc, "apply", suite, key, [(hdr, p) for p in seq])
+        io = [impl.step(l) for l in lines]
+        mo = lean.run_driver(lines)
+        diff(ctx, f"hp-apply-live-{suite}", lines, io, mo)
+        for l, a, b in zip(lines, io, mo):
+            ctx.count(("hp-live", l), True)
+            if a != b:
+                ctx.witness("HeaderProtection.apply on a live object differs from an independent RFC 9001 §5.4 computation "
+                            "(result depends on an earlier call)", {"ops_on_one_object": lines[:lines.index(l) + 1][-6:],
+                            "impl_output": a, "expected": b}, {"oracle": "hp-live-sequence", "suite": suite, "op": "apply"})
+                break
+        # remove: genuine packet, a copy altered in one sample byte, the genuine packet again …
+        pk = {p: unhx(okval(o)) for p, o in zip(seq, mo) if o.startswith("ok ")}
+        x = pk[base]
+        rseq = []
+        for j in range(16):
+            rseq += [pk[variants[1 + (j + 5) % 16]], _flip(x, off + 4 + j, 1 << (j % 8)), x]
+        for _ in range(100 if not thorough else 3000):
+            y = r.choice(list(pk.values()))
+            rseq.append(r.choice([y, _flip(y, off + 4 + r.randrange(16), 1 << r.randrange(8)), _flip(y, r.randrange(len(y)))]))
+        lines = _hp_lines(rfc, "remove", suite, key, [(p, off) for p in rseq])
+        io = [impl.step(l) for l in lines]
+        mo = lean.run_driver(lines)
+        diff(ctx, f"hp-remove-live-{suite}", lines, io, mo)
+        want = f"ok {hx(hdr)} {int.from_bytes(hdr[-pn_len:], 'big')}"
+        for k, (p, l, a, b) in enumerate(zip(rseq, lines, io, mo)):
+            ctx.count(("hp-live", l), True)
+            if a != b or (p == x and a != want):
+                ctx.witness("HeaderProtection.remove on a live object: the genuine packet is not unmasked correctly right after "
+                            "another packet / an altered copy (result depends on an earlier call)",
+                            {"ops_on_one_object": lines[max(0, k - 3):k + 1], "impl_output": a, "expected": b},
+                            {"oracle": "hp-live-sequence", "suite": suite, "op": "remove"})
+                break
+    ctx.sample({"hp-live": "per suite: apply/remove sequences on one HeaderProtection object, samples equal / one byte / 0..3 / 4..15 apart"})
+    # one live receiving CryptoContext per (suite, version): other packet, altered copy, genuine packet
+    cases = []
+    for suite in SUITES:
+        for v in (rfc.t.v1, rfc.t.v2):
+            secret = bytes(r.randrange(256) for _ in range(48 if suite == 4866 else 32))
+            key, iv, hp = rfc.keys(suite, v, secret)
+            for pn in range(4):
+                hdr = bytearray(gen_header(r, 2, False, 11))
+                hdr[0] &= ~4 & 0xFF
+                hdr[-2:] = pn.to_bytes(2, "big")
+                cases.append(dict(suite=suite, v=v, secret=secret, kp=0, hdr=bytes(hdr), pn=pn, key=key, iv=iv, hp=hp,
+                                  plain=bytes(r.randrange(256) for _ in range(30))))
+    nonces = [unhx(okval(o)) for o in lean.run_driver([f"prot.q.nonce {hx(c['iv'])} {c['pn']}" for c in cases])]
+    for c, n in zip(cases, nonces):
+        c["nonce"], c["sealed"] = n, rfc.seal(c["suite"], c["key"], n, c["hdr"], c["plain"])
+    samples = [unhx(okval(o)) for o in lean.run_driver([f"prot.q.sample {hx(c['hdr'])} {hx(c['sealed'])}" for c in cases])]
+    lines = [f"prot.encrypt {c['suite']} {hx(c['key'])} {hx(c['iv'])} {hx(c['hp'])} {hx(c['hdr'])} {hx(c['plain'])} {c['pn']} | "
+             f"{hx(c['nonce'])} {hx(c['sealed'])} {hx(s)} {hx(rfc.mask(c['suite'], c['hp'], s))}" for c, s in zip(cases, samples)]
+    io = [impl.step(l) for l in lines]
+    mo = lean.run_driver(lines)
+    diff(ctx, "encrypt-live", lines, io, mo)
+    dseq = []
+    for g in range(0, len(cases), 4):
+        grp = [dict(c, pkt=unhx(okval(o))) for c, o in zip(cases[g:g + 4], mo[g:g + 4])]
+        for j in range(16):
+            a, b = grp[j % 4], grp[(j + 1) % 4]
+            dseq += [dict(b, genuine=True), dict(a, pkt=_flip(a["pkt"], 9 + 4 + j, 1 << (j % 8)), genuine=False), dict(a, genuine=True)]
+    lines = _decrypt_lines(rfc, dseq)
+    io = [impl.step(l) for l in lines]
+    mo = lean.run_driver(lines)
+    diff(ctx, "decrypt-live", lines, io, mo)
+    for k, (d, l, a) in enumerate(zip(dseq, lines, io)):
+        ctx.count(("decrypt-live", l), True)
+        want = f"ok hdr={hx(d['hdr'])} payload={hx(d['plain'])} pn={d['pn']} upd=0"
+        if (d["genuine"] and a != want) or (not d["genuine"] and not a.startswith("err CryptoError")):
+            ctx.witness(("the genuine packet is not recovered by a live CryptoContext right after an altered copy was rejected"
+                         if d["genuine"] else "altered packet accepted") + f": {a[:60]!r}",
+                        {"ops_on_one_context": [x.split(" | ")[0] for x in lines[max(0, k - 2):k + 1]], "impl_output": a,
+                         "expected": want if d["genuine"] else "err CryptoError"},
+                        {"oracle": "decrypt-live-sequence", "suite": d["suite"]})
+            break
+
+
+def _decrypt_lines(rfc, dcases):
+    """`prot.decrypt` lines (same key phase, pn length 2, offset 9) with the independent answers"""
+    samples = [unhx(okval(o)) for o in lean.run_driver([f"prot.q.rsample {hx(d['pkt'])} 9" for d in dcases])]
+    ql = []
+    for d, s in zip(dcases, samples):
+        d["sample"], d["rk"] = s, rfc.keys(d["suite"], d["v"], d["secret"])
+        d["nk"] = rfc.keys(d["suite"], d["v"], rfc.next_secret(d["suite"], d["v"], d["secret"]))
+        d["mask"] = rfc.mask(d["suite"], d["rk"][2], s)
+        ql.append(f"prot.q.remove {hx(d['pkt'])} 9 {hx(s)} {hx(d['mask'])} {d['pn']} {hx(d['rk'][1])} {hx(d['nk'][1])} {d['kp']}")
+    lines = []
+    for d, o in zip(dcases, lean.run_driver(ql)):
+        use_key, nonce, ans = d["rk"][0], b"", None
+        if o.startswith("ok "):
+            kv = dict(t.split("=", 1) for t in o[3:].split())
+            use_key = d["nk"][0] if kv["next"] == "1" else d["rk"][0]
+            nonce, ct = unhx(kv["nonce"]), unhx(kv["ct"])
+            ans = rfc.open(d["suite"], use_key, nonce, unhx(kv["hdr"]), ct) if len(ct) >= 16 else None
+        lines.append(f"prot.decrypt {d['suite']} {d['v']} {hx(d['secret'])} {d['kp']} {hx(d['pkt'])} 9 {d['pn']} | "
+                     f"{hx(d['rk'][0])} {hx(d['rk'][1])} {hx(d['rk'][2])} {hx(d['nk'][0])} {hx(d['nk'][1])} "
+                     f"{hx(d['sample'])} {hx(d['mask'])} {hx(use_key)} {hx(nonce)} {'none' if ans is None else hx(ans)}")
+    return lines
